@@ -41,7 +41,7 @@ def main():
             na.append({"property_id": pid, "reason": PENDING})
     m = {
         "version": 1,
-        "setup_cmd": "python3 tools/build.py optim debug optim-asan debug-asan optim-tsan",
+        "setup_cmd": "python3 tools/build.py optim debug optim-asan debug-asan optim-tsan hsw",
         "hooks": {
             "guard": "TFHE_VERIF_SIM",
             "enable": "every library build made by tools/build.py passes -DTFHE_VERIF_SIM through CMAKE_C(XX)_FLAGS; no source line in /repo depends on it today: all seams are ELF symbol interposition from the simulator executable (DESIGN.md 3.1)",
